@@ -31,6 +31,66 @@ type c11Case struct {
 	Image string `json:"image"` // fat12 fat16 fat32 ext4 iso9660 squashfs gpt+fat32 mbr+fat16
 	Route string `json:"route"` // store-ro | writable-fails | diskfs-open-ro | openfrompath-ro | writable-reads | finalized-writable
 	Calls int    `json:"calls"`
+	// Damage: a stale or inconsistent spot that a reader might be tempted to "repair" while opening or
+	// reading: the image must not change whatever it finds
+	Damage string `json:"damage,omitempty"`
+}
+
+var c11Damages = map[string][]string{
+	"gpt+fat32": {"gpt-primary-header", "gpt-primary-entries", "gpt-backup-header", "fsinfo-stale", "fat-copies-differ", "fat-dirty-flag"},
+	"fat32":     {"fsinfo-stale", "fat-copies-differ", "fat-dirty-flag"},
+	"fat16":     {"fat-copies-differ", "fat-dirty-flag"},
+	"fat12":     {"fat-copies-differ"},
+	"mbr+fat16": {"fat-copies-differ", "fat-dirty-flag"},
+	"ext4":      {"ext4-not-clean", "ext4-mount-count-at-max", "ext4-errors-flag"},
+}
+
+// c11Damage edits img in place; start is the filesystem's offset in the image.
+func c11Damage(img []byte, kind, image string, start int64) {
+	le16 := func(o int64) int64 { return int64(img[o]) | int64(img[o+1])<<8 }
+	le32 := func(o int64) int64 { return le16(o) | le16(o+2)<<16 }
+	fatGeom := func() (fat1, fatBytes int64, is32 bool) {
+		reserved := le16(start + 14)
+		sz := le16(start + 22)
+		if sz == 0 {
+			sz, is32 = le32(start+36), true
+		}
+		return start + reserved*512, sz * 512, is32
+	}
+	switch kind {
+	case "gpt-primary-header":
+		img[512+56] ^= 0xff // disk GUID: header CRC no longer matches, the backup is intact
+	case "gpt-primary-entries":
+		img[1024+60] ^= 0xff // name of entry 1: entries CRC no longer matches
+	case "gpt-backup-header":
+		img[int64(len(img))-512+56] ^= 0xff
+	case "fsinfo-unknown":
+		for i := int64(488); i < 496; i++ {
+			img[start+512+i] = 0xff // free count and next-free hint "unknown"
+		}
+	case "fsinfo-stale":
+		img[start+512+488] ^= 0x55 // a wrong free-cluster count
+	case "fat-copies-differ":
+		f1, fb, _ := fatGeom()
+		img[f1+fb+fb-1] ^= 0x01 // last byte of the second copy (slack beyond the last cluster)
+	case "fat-dirty-flag":
+		f1, fb, is32 := fatGeom()
+		for _, f := range []int64{f1, f1 + fb} {
+			if is32 {
+				img[f+7] &^= 0x08 // FAT[1] bit 27: volume was not cleanly unmounted
+			} else if image != "fat12" {
+				img[f+3] &^= 0x80 // FAT[1] bit 15
+			}
+		}
+	case "ext4-not-clean":
+		img[start+1024+0x3a] = 0 // s_state: not cleanly unmounted
+		img[start+1024+0x3b] = 0
+	case "ext4-errors-flag":
+		img[start+1024+0x3a] = 3 // clean | errors detected
+	case "ext4-mount-count-at-max":
+		img[start+1024+0x34], img[start+1024+0x35] = 0xfe, 0x7f // s_mnt_count
+		img[start+1024+0x36], img[start+1024+0x37] = 0xfe, 0x7f // s_max_mnt_count
+	}
 }
 
 // failingWritable is a backend whose Writable() fails although the file below is writable.
@@ -128,6 +188,14 @@ func c11Run(c core.Case, env *core.Env) core.Result {
 		return res
 	}
 	img := build.Bytes()
+	if p.Damage != "" {
+		pristine := sha(img)
+		c11Damage(img, p.Damage, p.Image, start)
+		if sha(img) == pristine {
+			res.Inconclusive = "damage " + p.Damage + " did not change the image"
+			return res
+		}
+	}
 	// ---- obtain the backend through the route ----
 	var st *monstore.Store
 	var b backend.Storage
@@ -155,6 +223,13 @@ func c11Run(c core.Case, env *core.Env) core.Result {
 		}
 		defer os.Remove(realPath)
 	}
+	hashNow := func() string {
+		if realPath != "" {
+			return fileHash(realPath)
+		}
+		return sha(st.Bytes())
+	}
+	before := hashNow() // taken before anything of the library touches the image
 	var d *disk.Disk
 	secOpt := sectorOpt(512)
 	if p.Image == "squashfs" {
@@ -183,13 +258,6 @@ func c11Run(c core.Case, env *core.Env) core.Result {
 			core.Guard(func() { d.Close() })
 		}
 	}()
-	hashNow := func() string {
-		if realPath != "" {
-			return fileHash(realPath)
-		}
-		return sha(st.Bytes())
-	}
-	before := hashNow()
 	part := 0
 	if table != "" {
 		part = 1
@@ -199,8 +267,28 @@ func c11Run(c core.Case, env *core.Env) core.Result {
 		fail("getfilesystem-panic", pi.Top, "GetFilesystem panicked: %s", pi.Msg)
 		return res
 	}
-	if err != nil {
+	if err != nil && p.Damage == "" {
 		fail("getfilesystem-error", p.Route, "GetFilesystem(%d) on the read-only image failed: %v", part, err)
+		return res
+	}
+	if err != nil {
+		fs = nil // a damaged image may be refused; whatever was done so far must still not have written
+		res.Count("damaged.getfilesystem_refused", 1)
+	}
+	if st != nil {
+		n := len(st.ROWrites)
+		for _, e := range st.Log {
+			if e.Kind == 'W' {
+				n++
+			}
+		}
+		if n > 0 {
+			fail("open-wrote", p.Route+"/"+p.Damage, "opening the disk and asking for its filesystem - purely reading calls - issued %d write(s) to the device (%s, damage %q)", n, p.Route, p.Damage)
+			return res
+		}
+	}
+	if after := hashNow(); after != before {
+		fail("image-changed", p.Route+"/open", "the image's hash changed from %s to %s while it was only opened (%s, damage %q)", before, after, p.Route, p.Damage)
 		return res
 	}
 	_ = sector
@@ -264,6 +352,16 @@ func c11Run(c core.Case, env *core.Env) core.Result {
 			}, true})
 		}
 	}
+	if fs == nil {
+		// only the disk-level calls can be driven
+		var m2 []c11Call
+		for _, cl := range mut {
+			if cl.disk {
+				m2 = append(m2, cl)
+			}
+		}
+		mut = m2
+	}
 	switch x := fs.(type) {
 	case *iso9660.FileSystem:
 		mut = append(mut, c11Call{"Finalize", true, func() error { return x.Finalize(iso9660.FinalizeOptions{}) }, false})
@@ -290,6 +388,9 @@ func c11Run(c core.Case, env *core.Env) core.Result {
 		{name: "Label", mutates: false, run: func() error { _ = fs.Label(); return nil }},
 		{name: "GetPartitionTable", mutates: false, run: func() error { _, _ = d.GetPartitionTable(); return nil }},
 		{name: "GetFilesystem", mutates: false, run: func() error { _, e := d.GetFilesystem(part); return e }},
+	}
+	if fs == nil {
+		reads = reads[len(reads)-2:] // GetPartitionTable, GetFilesystem
 	}
 	if table != "" {
 		reads = append(reads, c11Call{name: "ReadPartitionContents", run: func() error { _, e := d.ReadPartitionContents(1, io.Discard); return e }})
@@ -382,7 +483,10 @@ func c11Run(c core.Case, env *core.Env) core.Result {
 		fail("image-changed", p.Route, "the image's hash changed from %s to %s over %d calls (%s)", before, after, n, p.Route)
 	}
 	res.Evals = int64(n)
-	res.Sig(p.Image, p.Route, c.Seed)
+	res.Sig(p.Image, p.Route, p.Damage, c.Seed)
+	if p.Damage != "" {
+		res.Mark("damage " + p.Damage)
+	}
 	res.Mark("route " + p.Route)
 	res.Mark("image " + p.Image)
 	res.Sample = p
@@ -392,13 +496,13 @@ func c11Run(c core.Case, env *core.Env) core.Result {
 func init() {
 	images := []string{"fat12", "fat16", "fat32", "ext4", "iso9660", "squashfs", "gpt+fat32", "mbr+fat16"}
 	core.Register(&core.Check{
-		ID:    "C11",
-		Level: "exploration",
-		Rule: "prebuilt images {fat12, fat16, fat32, ext4, iso9660 (Rock Ridge), squashfs, GPT disk with FAT32 partition, MBR disk with FAT16 partition} are opened read-only through four routes (file.New(store, readOnly=true) over an instrumented store with a write sentinel, a backend whose Writable() fails, diskfs.Open(path, ReadOnly), file.OpenFromPath(path, true)) and, for clause (c) and finalized images, through a writable backend with a write log; seeded interleavings of mutating entry points (Partition, WritePartitionContents, CreateFilesystem, Mkdir, OpenFile with every write flag, Write through a handle, Rename, Remove, SetLabel, Chmod, Chown, Chtimes, Symlink, Finalize) and reading entry points are driven: every mutator must return an error and cause zero write events, reading calls must cause zero write events, and the image hash must be unchanged; non-trivial = an interleaving with at least one rejected mutator or checked reading call; distinct = distinct (image, route, seed)",
+		ID:          "C11",
+		Level:       "exploration",
+		Rule:        "prebuilt images {fat12, fat16, fat32, ext4, iso9660 (Rock Ridge), squashfs, GPT disk with FAT32 partition, MBR disk with FAT16 partition} are opened read-only through four routes (file.New(store, readOnly=true) over an instrumented store with a write sentinel, a backend whose Writable() fails, diskfs.Open(path, ReadOnly), file.OpenFromPath(path, true)) and, for clause (c) and finalized images, through a writable backend with a write log; seeded interleavings of mutating entry points (Partition, WritePartitionContents, CreateFilesystem, Mkdir, OpenFile with every write flag, Write through a handle, Rename, Remove, SetLabel, Chmod, Chown, Chtimes, Symlink, Finalize) and reading entry points are driven: every mutator must return an error and cause zero write events, reading calls must cause zero write events, and the image hash - taken before the library first touches the image, so that opening itself is covered - must be unchanged; the same is driven on images with a stale or inconsistent spot a reader might be tempted to repair (GPT primary header / primary entries / backup header failing their CRC, FSInfo free count stale, FAT copies differing, FAT dirty flag, ext4 not cleanly unmounted / error flag / mount count at its maximum): refusing such an image is an observation, writing to it is a violation; non-trivial = an interleaving with at least one rejected mutator or checked reading call; distinct = distinct (image, route, seed)",
 		Assumptions: []string{"for the two real-path routes the observation is the SHA-256 of the file before/after (no per-call write log)"},
-		MinSigs:   map[string]int{"quick": 40, "thorough": 1000},
-		NeedMarks: []string{"route store-ro", "route writable-fails", "route diskfs-open-ro", "route openfrompath-ro", "route writable-reads", "route finalized-writable"},
-		CPUSec:    300,
+		MinSigs:     map[string]int{"quick": 40, "thorough": 1000},
+		NeedMarks:   []string{"damage gpt-primary-header", "damage gpt-backup-header", "damage fsinfo-stale", "damage fat-copies-differ", "damage ext4-not-clean", "route store-ro", "route writable-fails", "route diskfs-open-ro", "route openfrompath-ro", "route writable-reads", "route finalized-writable"},
+		CPUSec:      300,
 		Cases: func(seed int64, tier string) []core.Case {
 			r := gen.New(seed ^ 0xC11)
 			reps, calls := 1, 30
@@ -410,6 +514,11 @@ func init() {
 				for _, im := range images {
 					for _, rt := range []string{"store-ro", "writable-fails", "diskfs-open-ro", "openfrompath-ro", "writable-reads"} {
 						cs = append(cs, core.MkCase(fmt.Sprintf("%s-%s-%d", im, rt, rep), "readonly-"+im, r.Int63(), c11Case{Image: im, Route: rt, Calls: calls}))
+					}
+					for _, dm := range c11Damages[im] {
+						for _, rt := range []string{"store-ro", "writable-reads", "diskfs-open-ro"} {
+							cs = append(cs, core.MkCase(fmt.Sprintf("%s-%s-%s-%d", im, dm, rt, rep), "readonly-"+im, r.Int63(), c11Case{Image: im, Route: rt, Calls: calls, Damage: dm}))
+						}
 					}
 					if im == "iso9660" || im == "squashfs" {
 						cs = append(cs, core.MkCase(fmt.Sprintf("%s-finalized-writable-%d", im, rep), "readonly-"+im, r.Int63(), c11Case{Image: im, Route: "finalized-writable", Calls: calls}))
